@@ -42,3 +42,22 @@ package db
 //@   ensures[all-or-nothing] lastTx != old(lastTx) ==> ((result == nil ==> txState(lastTx) == 1) && (result != nil ==> txState(lastTx) == 2))
 //@   ensures[no-transaction-no-success] lastTx == old(lastTx) ==> result != nil
 //@   ensures[committed-only-if-every-statement-succeeded] result == nil ==> stmtFail == old(stmtFail)
+
+// ---- the certificate store's other statements (C02, C13): assumed semantics (A5), texts pinned
+//@ func (a *AggSenderSQLStorage) GetLastSentCertificate
+//@   props C02 C13
+//@   trusted
+//@   sqltext "SELECT * FROM certificate_info ORDER BY height DESC LIMIT 1;"
+//@ func (a *AggSenderSQLStorage) GetLastSentCertificateHeaderWithProofIfInError
+//@   props C02 C13
+//@   trusted
+//@   sqltext "SELECT aggchain_proof FROM certificate_info WHERE height = $1;"
+//@   consttext "%s ORDER BY height DESC LIMIT 1;"
+//@ func (a *AggSenderSQLStorage) UpdateCertificateStatus
+//@   props C02 C13
+//@   trusted
+//@   sqltext "UPDATE certificate_info SET status = $1, updated_at = $2 WHERE certificate_id = $3;"
+//@ func deleteCertificate
+//@   props C02 C13
+//@   trusted
+//@   sqltext "DELETE FROM certificate_info WHERE certificate_id = $1;"
